@@ -131,13 +131,21 @@ pub fn record(args: &[String]) {
     // runs through dozens of doublings / halvings)
     let dev = <B64 as Backend>::Device::default();
     let dev32 = <B32 as Backend>::Device::default();
-    for (k, own) in [OwnN::GaussP { prec: vec![vec![1.0]] }, OwnN::GaussP { prec: vec![vec![1e4]] }, OwnN::GaussP { prec: vec![vec![1e-4]] }, OwnN::Steep { c: 1e3 }, OwnN::HalfLine,
-                     OwnN::GaussP { prec: vec![vec![1e10]] }, OwnN::GaussP { prec: vec![vec![1e-9]] }, OwnN::GaussP { prec: vec![vec![1e10]] }, OwnN::GaussP { prec: vec![vec![1e-9]] }].into_iter().enumerate() {
-        let f32_case = k >= 7;
+    let heur_targets: Vec<(OwnN, bool)> = vec![
+        (OwnN::GaussP { prec: vec![vec![1.0]] }, false), (OwnN::GaussP { prec: vec![vec![1e4]] }, false), (OwnN::GaussP { prec: vec![vec![1e-4]] }, false),
+        (OwnN::Steep { c: 1e3 }, false), (OwnN::HalfLine, false),
+        (OwnN::GaussP { prec: vec![vec![1e10]] }, false), (OwnN::GaussP { prec: vec![vec![1e-9]] }, false),
+        (OwnN::GaussP { prec: vec![vec![1e10]] }, true), (OwnN::GaussP { prec: vec![vec![1e-9]] }, true),
+        // log-densities that are NaN outside the support while their gradient formula stays finite there; the second one has a
+        // scale of 6e-7, so the unit first step of the search always leaves the support
+        (OwnN::Gamma { a: 1.0, b: 1.0 }, false), (OwnN::Gamma { a: 2.0, b: 3e6 }, false),
+    ];
+    for (k, (own, f32_case)) in heur_targets.into_iter().enumerate() {
         for t in 0..(if thorough { 12 } else { 4 }) {
-            let scale = match &own { OwnN::GaussP { prec } if k >= 5 => 1.0 / prec[0][0].sqrt(), _ => 1.0 };
+            let scale = match &own { OwnN::GaussP { prec } if k >= 5 => 1.0 / prec[0][0].sqrt(), OwnN::Gamma { b, .. } => 1.0 / b, _ => 1.0 };
             let x0 = vec![((0.3 + 0.4 * t as f64) * scale) as f32 as f64];
-            let p0 = vec![(((splitmix(&mut s) % 4000) as f64 / 1000.0) - 2.0) as f32 as f64];
+            // (the half-line targets also get momenta that point out of the support: the first trial point is then outside)
+            let p0 = vec![match &own { OwnN::Gamma { .. } if t % 2 == 0 => -1.9 + 0.1 * t as f64, _ => (((splitmix(&mut s) % 4000) as f64 / 1000.0) - 2.0) as f32 as f64 }];
             let tx = Tensor::<B64, 1>::from_data(TensorData::new(x0.clone(), [1]), &dev);
             let tp = Tensor::<B64, 1>::from_data(TensorData::new(p0.clone(), [1]), &dev);
             let eps: Result<f64, String> = catch(|| match &own {
@@ -148,16 +156,18 @@ pub fn record(args: &[String]) {
                 }
                 OwnN::GaussP { prec } => mini_mcmc::nuts::verif_api::find_reasonable_epsilon::<B64, f64, _>(tx, tp, &GaussP { prec: prec.clone() }),
                 OwnN::Steep { c } => mini_mcmc::nuts::verif_api::find_reasonable_epsilon::<B64, f64, _>(tx, tp, &Steep { c: *c }),
+                OwnN::Gamma { a, b } => mini_mcmc::nuts::verif_api::find_reasonable_epsilon::<B64, f64, _>(tx, tp, &crate::nutsrec::GammaN { a: *a, b: *b }),
                 _ => mini_mcmc::nuts::verif_api::find_reasonable_epsilon::<B64, f64, _>(tx, tp, &HalfLineN),
             });
             let eps = match eps {
                 Ok(e) => e,
                 Err(p) => {
-                    out.push(&json!({"e": "heur", "k": k, "eps": crate::c02::fx16(f64::NAN), "pos_finite": false, "exit_ok": false, "prev_continues": false, "panic": p}));
+                    out.push(&json!({"e": "heur", "k": k, "eps": crate::c02::fx16(f64::NAN), "pos_finite": false, "a_one": crate::c02::fx16(f64::NAN), "a_eps": crate::c02::fx16(f64::NAN), "a_half": crate::c02::fx16(f64::NAN), "a_twice": crate::c02::fx16(f64::NAN), "slack": 0, "panic": p}));
                     continue;
                 }
             };
-            // log acceptance probability of one leapfrog step of size e from (x0, p0), own integrator
+            // log acceptance probability of one leapfrog step of size e from (x0, p0), own integrator; logged as it is (NaN
+            // included): what it means for the search is decided by DualAvg!StartValueOk
             let la = |e: f64| -> f64 {
                 let g = own.grad(&x0);
                 let ph = p0[0] + 0.5 * e * g[0];
@@ -165,19 +175,10 @@ pub fn record(args: &[String]) {
                 let p1 = ph + 0.5 * e * own.grad(&[x1])[0];
                 own.logp(&[x1]) - own.logp(&x0) - 0.5 * (p1 * p1 - p0[0] * p0[0])
             };
-            let a = if la(1.0) > 0.5f64.ln() { 1.0 } else { -1.0 };
-            let ln2 = std::f64::consts::LN_2;
-            // f32 arithmetic of the implementation against the f64 reference: a wider dead zone around the threshold
-            let slack = if f32_case { 2e-2 } else { 1e-9 };
-            // exit: a * la(eps) <= -a ln 2 ; the candidate before it still satisfied the loop condition
-            // (if the very first trial step leaves the support the implementation first halves until it is finite:
-            // Algorithm 4 has no such phase, only positivity and the power of two are asserted then)
-            let regular = la(1.0).is_finite();
-            let exit_ok = !regular || !(a * la(eps) > -a * ln2 + slack) || la(eps).is_nan();
-            let prev = eps / 2f64.powf(a);
-            let prev_continues = !regular || a * la(prev) > -a * ln2 - slack || prev == 0.5 || la(prev).is_nan();
+            // f32 arithmetic of the implementation against the f64 reference: a wider dead zone around the threshold (2^-16 units)
+            let slack: i64 = if f32_case { 1311 } else { 2 };
             out.push(&json!({"e": "heur", "k": k, "x0": x0[0], "p0": p0[0], "eps": crate::c02::fx16(eps.ln()), "pos_finite": eps > 0.0 && eps.is_finite(),
-                "exit_ok": exit_ok, "prev_continues": prev_continues}));
+                "a_one": crate::c02::fx16(la(1.0)), "a_eps": crate::c02::fx16(la(eps)), "a_half": crate::c02::fx16(la(eps / 2.0)), "a_twice": crate::c02::fx16(la(eps * 2.0)), "slack": slack}));
         }
     }
     let n = out.finish();
